@@ -380,7 +380,7 @@ Proof.
         (match pt_lookup p (expected g0) with
          | None => sub <- patch_obj (r1 :: rest') [] x ;; Ok (pt_set (expected g0) p (PNode sub))
          | Some (PNode ms) => sub <- patch_obj (r1 :: rest') ms x ;; Ok (pt_set (expected g0) p (PNode sub))
-         | Some (PLeaf _) => Err EUnsupported
+         | Some (PLeaf d) => d' <- patch_value (r1 :: rest') d x ;; Ok (pt_set (expected g0) p (PLeaf d'))
          end).
       unfold expected at 1. rewrite pt_lookup_map.
       destruct (pmem p (first_keys g0)) eqn:Hm.
